@@ -11,7 +11,13 @@ import (
 )
 
 func main() {
-	rep, err := instr.Library(os.Args[1])
+	var rep *instr.Report
+	var err error
+	if len(os.Args) > 2 && os.Args[2] == "tool" {
+		rep, err = instr.Tool(os.Args[1], "update-wordlist")
+	} else {
+		rep, err = instr.Library(os.Args[1])
+	}
 	if err != nil {
 		fmt.Println("ERR", err)
 		os.Exit(2)
